@@ -63,7 +63,7 @@ def mutation_specs(n, tier, stride_big=4):
         specs.append({"m": "window", "pos": p, "w": 1})
         if tier == "thorough":
             specs.append({"m": "window", "pos": p, "w": 2})
-            if p % 2 == 0:
+            if p % 4 == 1:
                 specs.append({"m": "window", "pos": p, "w": 3})
         if (tier == "thorough" and p % 2 == 0) or p % stride_big == 0:
             specs.append({"m": "window", "pos": p, "w": 4})
